@@ -63,7 +63,7 @@ class ApplyHistory(Machine):
                        "memo_same_array_after_refill", "same_shape_different_values",
                        "batch_middle_fails", "batch_gt_n", "batch_not_dividing", "exception_then_success",
                        "mask_checked", "apply_shape", "constrain_batched", "set_target_between_applies",
-                       "out_of_domain_mix", "apply_on_copy")
+                       "out_of_domain_mix", "apply_on_copy", "integer_dtype_buffer")
 
     @classmethod
     def swarm(cls, rng, tier):
@@ -80,7 +80,7 @@ class ApplyHistory(Machine):
             return {"op": "newt", "kind": rng.choice(cfg["kinds"]), "seed": rng.getrandbits(32), "dst": rng.randrange(64)}
         if r < 0.26:
             return {"op": "newbuf", "seed": rng.getrandbits(32), "n": rng.randrange(1, 13),
-                    "mix": rng.choice([0, 0, 0, 1, 1, 2]), "dst": rng.randrange(64)}
+                    "mix": rng.choice([0, 0, 0, 1, 1, 2]), "dst": rng.randrange(64), "int": int(rng.random() < 0.25)}
         if r < 0.62:
             return {"op": "apply", "t": rng.randrange(64), "b": rng.randrange(64),
                     "batch": rng.choice([0, 0, 1, 2, 3, 4, 5, 7, 11, 13, 14]),
@@ -160,6 +160,40 @@ class ApplyHistory(Machine):
                 p[j, 1] = hi[1] + off[j]
         return p
 
+    def _margin(self, pts):
+        """For each point the largest (over triangles) smallest barycentric coordinate: > 0 means strictly inside."""
+        best = np.full(len(pts), -np.inf)
+        for t in self.tri:
+            a, b, c = self.S[t]
+            M = np.array([[b[0] - a[0], c[0] - a[0]], [b[1] - a[1], c[1] - a[1]]])
+            uv = np.linalg.solve(M, (pts - a).T).T
+            lam = np.column_stack([1 - uv.sum(1), uv[:, 0], uv[:, 1]])
+            best = np.maximum(best, lam.min(1))
+        return best
+
+    def _int_values(self, seed, n, mix):
+        """Integer-dtype coordinates (pixel indices): lattice points clearly inside / clearly outside."""
+        g = rs(seed)
+        lo, hi = np.floor(self.S.min(0)).astype(int), np.ceil(self.S.max(0)).astype(int)
+        ys, xs = np.meshgrid(np.arange(lo[0] - 4, hi[0] + 5), np.arange(lo[1] - 4, hi[1] + 5), indexing="ij")
+        cand = np.stack([ys.ravel(), xs.ravel()], 1)
+        mg = self._margin(cand.astype(float))
+        inside = cand[mg > 0.05]
+        box_out = (cand[:, 0] < lo[0] - 1) | (cand[:, 0] > hi[0] + 1) | (cand[:, 1] < lo[1] - 1) | (cand[:, 1] > hi[1] + 1)
+        outside = cand[box_out]
+        if len(inside) == 0:
+            return None
+        p = inside[g.randint(len(inside), size=n)]
+        if mix == 2:
+            p = outside[g.randint(len(outside), size=n)]
+        elif mix == 1:
+            m = g.rand(n) < 0.35
+            if not m.any():
+                m[int(g.randint(n))] = True
+            p = p.copy()
+            p[m] = outside[g.randint(len(outside), size=int(m.sum()))]
+        return np.ascontiguousarray(p, dtype=np.int64), mix
+
     def _values(self, seed, n, mix):
         g = rs(seed)
         p = self._inside(g, n)
@@ -190,7 +224,10 @@ class ApplyHistory(Machine):
             self.ts[op["dst"] % POOL_T] = e
 
     def _op_newbuf(self, op):
-        v, mix = self._values(op["seed"], op["n"], op["mix"])
+        r = self._int_values(op["seed"], op["n"], op["mix"]) if op.get("int") else None
+        if r is not None:
+            self.ctx.probe("integer_dtype_buffer")
+        v, mix = r if r is not None else self._values(op["seed"], op["n"], op["mix"])
         e = {"a": v, "edited": False, "mix": mix}
         if len(self.bufs) < POOL_B:
             self.bufs.append(e)
@@ -204,6 +241,8 @@ class ApplyHistory(Machine):
         g = rs(op["seed"])
         rel = 10.0 ** (-op["exp"])
         a = b["a"]
+        if a.dtype.kind == "i":
+            return   # integer buffers are only refilled, a sub-unit edit has no meaning for them
         if op["one"] and a.shape[0] > 0:
             j = int(g.randint(a.shape[0]))
             a[j] += rel * (1.0 + np.abs(a[j])) * np.where(g.rand(2) < 0.5, 1.0, -1.0)
@@ -215,7 +254,13 @@ class ApplyHistory(Machine):
         if not self.bufs:
             return
         b = self.bufs[op["b"] % len(self.bufs)]
-        v, mix = self._values(op["seed"], b["a"].shape[0], op["mix"])
+        if b["a"].dtype.kind == "i":
+            r = self._int_values(op["seed"], b["a"].shape[0], op["mix"])
+            if r is None:
+                return
+            v, mix = r
+        else:
+            v, mix = self._values(op["seed"], b["a"].shape[0], op["mix"])
         b["a"][:] = v   # same array object, new values
         b["edited"], b["mix"] = "refill", mix
 
